@@ -11,7 +11,11 @@ def one(d):
     t = tempfile.mkdtemp(prefix='vx-seedrun-')
     try:
         subprocess.run(['rsync', '-a', '--exclude', 'target', '/repo/crates', t + '/'], check=True)
-        p = subprocess.run(['patch', '-p1', '-s', '-i', d + '/patch.diff'], cwd=t, capture_output=True, text=True)
+        p = subprocess.run(['patch', '-p1', '-s', '--dry-run', '-i', d + '/patch.diff'], cwd=t, capture_output=True, text=True)
+        pf = d + '/patch.diff'
+        if p.returncode != 0 and os.path.exists(d + '/patch.rebased.diff'):
+            pf = d + '/patch.rebased.diff'   # same change re-expressed after a fix: commit touched the same lines
+        p = subprocess.run(['patch', '-p1', '-s', '-i', pf], cwd=t, capture_output=True, text=True)
         if p.returncode != 0:
             return sid, dict(property=prop, result='patch-does-not-apply')
         res = {}
